@@ -6,7 +6,7 @@ import os
 import subprocess
 import time
 
-from common import (bin_path, PY_EXE, PY_MAGIC, PY_VER, HarnessError, Pool, Report, alpha_rename, build,
+from common import (SCRATCH, bin_path, PY_EXE, PY_MAGIC, PY_VER, HarnessError, Pool, Report, alpha_rename, build,
                     ddmin, load_known, log, norm_text, run_json, sha, write_evidence, write_replay)
 from genproj import gen_project, write_project
 from rng import SplitMix
@@ -29,9 +29,15 @@ COMPONENTS_STUBBED = [
 ]
 
 
+MOUNT_AT = os.path.join(SCRATCH, "mnt")
+
+
 def harness_args(dir_, pin, extra):
-    return ["--dir", dir_, "--pin", str(pin), "--python", PY_EXE, "--magic", PY_MAGIC,
-            "--pyver", PY_VER] + extra
+    # every worker sees its project at the same absolute path (private bind mount): erg's
+    # path-keyed tables iterate in an order that depends on the path
+    os.makedirs(MOUNT_AT, exist_ok=True)
+    return ["--dir", dir_, "--mount-at", MOUNT_AT, "--pin", str(pin), "--python", PY_EXE,
+            "--magic", PY_MAGIC, "--pyver", PY_VER] + extra
 
 
 def run_simc(binary, dir_, pin, extra, timeout=120):
@@ -121,7 +127,9 @@ def explore_project(prop, proj, sched_seeds, w, d, want_seq=True, want_exec=Fals
         rec["res"] = run_simc(SIMC, pdir, w, extra)
         runs.append(rec)
     for r in runs:
-        r["out"] = outcome(r["res"], pdir)
+        if r["res"].get("class") == "done" and r["res"].get("dir") != MOUNT_AT:
+            raise HarnessError("bind mount of the project directory failed: " + str(r["res"].get("dir")))
+        r["out"] = outcome(r["res"], MOUNT_AT)
     return runs, pdir
 
 
